@@ -27,8 +27,9 @@ func vhJournal(present bool) {
 	verifSetFile(vhDBName+"-journal", hdr, 1024, 0)
 }
 
+//verif:prop C07,C20
 //verif:witnesses 10
-//verif:bounds foreign connection in each of UNLOCKED / SHARED / RESERVED / PENDING / EXCLUSIVE x hot-looking journal present or absent; operations: open, RLock, table listing, RUnlock, Close on the real unix pager
+//verif:bounds foreign connection in each of UNLOCKED / SHARED / RESERVED / PENDING / EXCLUSIVE x hot-looking journal present or absent; operations: open, RLock, table listing, RUnlock, two more RLock/RUnlock transactions on the same handle, Close on the real unix pager
 func VH_C07_states() {
 	state := verifChoice(5)
 	journal := verifChoice(2) == 1
@@ -68,6 +69,15 @@ func VH_C07_states() {
 	verifAssert(verifOwnLock(vhDBName, sharedFirstC, 510) == 1, "SHARED lock still held after reading")
 	d.RUnlock()
 	verifAssert(verifOwnLock(vhDBName, sharedFirstC, 510) == 0, "SHARED lock released by RUnlock")
+	// a long-lived handle: every later transaction takes and releases the lock
+	// like the first one (the foreign connection is still in the same state)
+	for txn := 0; txn < 2; txn++ {
+		verifNoErr(d.RLock(), "later transaction: the read lock is granted again")
+		verifAssert(verifOwnLock(vhDBName, sharedFirstC, 510) == 1, "SHARED lock held during a later transaction of the same handle")
+		verifAssert(verifOwnLock(vhDBName, pendingByteC, 1) == 0, "pending byte released again in a later transaction")
+		d.RUnlock()
+		verifAssert(verifOwnLock(vhDBName, sharedFirstC, 510) == 0, "SHARED lock released after a later transaction")
+	}
 	d.Close()
 	verifReach("end")
 }
